@@ -8,7 +8,10 @@ Second part (`_scenarios`, harness/lib/c12scen.py): databases with 2-3 recording
 cancelled calls, an OEM-like ECU subclass, pauses, short scans sent several times and a synthetic table of state objects, replayed
 through the real server with its state and cursor read after every request and through the server-level model
 (Model/ReplayServe.lean, `serve`); a replay that differs from its recording is shrunk (re-recorded with a scripted ECU) before it
-is reported."""
+is reported.  Scenario `property-sets`: 2-4 runs of ECUs of one family whose `properties_pre` / `properties_post` are written only by the real
+`DBHandler` calls (insert_scan_run, insert_scan_run_properties_pre - or not: the write failed / was skipped -, complete_scan_run - or not), the other
+runs holding rows for the same requests with other replies and post-properties that do / do not match the selector; the columns are compared with
+`RunCols.after`, the run whose pre-properties match must be replayed byte for byte (`_report_spec_db` shrinks the whole database)."""
 import asyncio
 import json
 import sqlite3
@@ -32,6 +35,10 @@ ASSUMPTIONS = [
     "(here every recorded reply is additionally compared with the real parser: class, typed or raw, re-serialised bytes)",
     "the recording side is C11's recorder model (`Model/DbLog.lean`, imported read-only): `record_is_c11_rows` / `record_is_c11_calls` say its rows are `recordDb`; that the model is the real "
     "`ECU._request` + `DBHandler` is C11's tie (here: the rows read back are the completed calls in completion order, the logged state is the model's client state)",
+    "`scan_run.properties_pre` / `properties_post` are modelled as written by `insert_scan_run_properties_pre` / `complete_scan_run` only (`RunCols.after`; tied: the columns read back after the real calls); "
+    "a run whose pre-properties were never written has `properties_pre IS NULL` = a property object without keys for the WHERE clause (`RunCols.info`) - `run_without_pre_properties_never_selected` is for selectors "
+    "with at least one property value; a selector that only asks for absent properties (`None`) or the empty property set sees such runs too (model = code, no statement of the property); "
+    "ECU names are assigned by hand (`address.ecu`; gallia has no call for it)",
     "the default rules of `UDSServer` are parameters of the server-level model (C13 models them); with `DBUDSServer.Behavior` - regenerated from the live class on every run - they are never consulted",
     "several recordings the selector selects occupy id blocks that do not overlap (`RunsSorted`: one recording at a time per database file); `replay_with_earlier_runs` is for recordings of the same request sequence "
     "that end in the default state - for other request sequences the exact statement is the step-level `replay_cursor_spec` plus `replay_earliest_recording`",
@@ -311,8 +318,7 @@ def _db_line(dbp, ecu_name, props, reqs):
     runs, run_ids = [], []
     for (run, pp) in c.execute("SELECT id, properties_pre FROM scan_run ORDER BY id").fetchall():
         name = c.execute("SELECT e.name FROM scan_run s, address a, ecu e WHERE s.id=? AND s.address=a.id AND a.ecu=e.id", (run,)).fetchone()
-        pp = json.loads(pp) if pp else {}
-        runs.append(f"{run}/{name[0].encode().hex() if name else '-'}/{_kvs(pp)}")
+        runs.append(f"{run}/{name[0].encode().hex() if name else '-'}/{'~' if pp is None else _kvs(json.loads(pp))}")
         run_ids.append(run)
     rows = []
     for rid, run, state, req, resp in c.execute("SELECT id, run, state, request_pdu, response_pdu FROM scan_result ORDER BY id"):
@@ -446,6 +452,113 @@ def _report_spec(ctx, hist, where, scenario, runs_in_db, real_tokens, recorded_t
                  case, impl=real_tokens[: i + 1], model=recorded_tokens[: i + 1], spec_violated=True, site="DBUDSServer.respond_after_default")
 
 
+def _rerecord_db(ctx, case):
+    """record every run of `case` ({"runs": [{url, name, pre, post, history}], "selector": [name, props], "target": i}) with the real recorder
+    and the real DBHandler property calls against scripted ECUs into a fresh database, replay the target run's requests through the real
+    DBUDSServer with the selector: (recorded tokens of the target run, replayed tokens, the model says the presupposition holds for it)"""
+    from lib import c12scen as sc
+
+    with tempfile.TemporaryDirectory(prefix="verif-c12-") as td:
+        dbp = Path(td) / "case.sqlite"
+        named, recs = [], []
+        for d in case["runs"]:
+            hist = [(bytes.fromhex(p), None if r is None else bytes.fromhex(r)) for p, r in d["history"]]
+            rec, _ = vrun(sc.record_run(dbp, d["url"], ScriptECU(hist), [("pdu", p) for p, _ in hist],
+                                        pre=sc.NOT_CALLED if d["pre"] is None else d["pre"], post=sc.NOT_CALLED if d["post"] is None else d["post"]))
+            named.append((rec["run"], d["url"], d["name"], None))
+            recs.append(rec)
+        sc.name_runs(dbp, named)
+        tgt = recs[case["target"]]
+        real, _ = vrun(sc.replay_trace(dbp, case["selector"][0], case["selector"][1], [(0, p) for p, _, _ in tgt["calls"]]))
+        cols = sc.run_columns(dbp)
+    th = case["runs"][case["target"]]["history"]
+    la = ctx.lean(["agree " + ";".join(f"{p if p else '-'}:{r if r is not None else 'N'}" for p, r in th)])[0] if th else "1 final=1/n "
+    recorded = ["N" if r is None else hx(r) for _, r, _ in tgt["calls"]]
+    return recorded, [t.split("~")[0] for t in real], la.split(" ")[0] == "1", [cols[r["run"]] for r in recs]
+
+
+def _shrink_db(ctx, case):
+    """smallest database (target history cut after the first difference, other runs dropped, single exchanges dropped - fixed order) that still
+    replays the target run differently from its recording while client and server agree on the state along it"""
+    def fails(c):
+        recorded, real, agree, cols = _rerecord_db(ctx, c)
+        i = _first_diff(recorded, real)
+        return (i, _what(real[i]), recorded, real, cols) if agree and i is not None else None
+
+    f = fails(case)
+    if f is None:
+        return None
+    what = f[1]
+
+    def with_runs(c, runs, target):
+        return {**c, "runs": runs, "target": target}
+
+    def cut(c, f):
+        runs = [dict(d) for d in c["runs"]]
+        runs[c["target"]]["history"] = runs[c["target"]]["history"][: f[0] + 1]
+        return with_runs(c, runs, c["target"])
+
+    cand = cut(case, f)
+    g = fails(cand)
+    if g is not None and g[1] == what:
+        case, f = cand, g
+    k = 0
+    while k < len(case["runs"]):   # other runs, front to back
+        if k != case["target"]:
+            cand = with_runs(case, case["runs"][:k] + case["runs"][k + 1:], case["target"] - (1 if k < case["target"] else 0))
+            g = fails(cand)
+            if g is not None and g[1] == what:
+                case, f = cut(cand, g), g
+                continue
+        k += 1
+    budget = 40
+    for ri in range(len(case["runs"])):   # single exchanges: the target's (not its last), then the others'
+        k = 0
+        while k < len(case["runs"][ri]["history"]) and budget > 0:
+            h = case["runs"][ri]["history"]
+            if (ri == case["target"] and k == len(h) - 1) or len(h) <= 1:
+                break
+            budget -= 1
+            runs = [dict(d) for d in case["runs"]]
+            runs[ri]["history"] = h[:k] + h[k + 1:]
+            cand = with_runs(case, runs, case["target"])
+            g = fails(cand)
+            if g is not None and g[1] == what and g[0] == len(cand["runs"][cand["target"]]["history"]) - 1:
+                case, f = cand, g
+            else:
+                k += 1
+    g = fails(case)
+    return (case, what, g[2][: g[0] + 1], g[3][: g[0] + 1], g[4]) if g is not None else None
+
+
+def _report_spec_db(ctx, db_case, scenario, where, real_tokens, recorded_tokens):
+    """a run selected by its properties is replayed differently from its recording in a database with further runs: shrink the database,
+    then report it with a key that says what kind of other run the replay depends on"""
+    i = _first_diff(recorded_tokens, real_tokens)
+    what = _what(real_tokens[i])
+    shrunk = _shrink_db(ctx, db_case)
+    if shrunk is not None:
+        case, what, recorded_tokens, real_tokens, cols = shrunk
+        case = {"scenario": scenario, "shrunk": True, **case, "columns_after_recording (properties_pre, properties_post; ~: NULL)": cols}
+        i = len(real_tokens) - 1
+    else:
+        case = {"scenario": scenario, "shrunk": False, "where": where, **db_case}
+    want = case["selector"][1] or {}
+
+    def matches(d):
+        return "none" if d is None else ("match" if all(d.get(k_) == v for k_, v in want.items()) else "differ")
+
+    others = sorted({f"pre-{matches(d['pre'])}/post-{matches(d['post'])}" for n_, d in enumerate(case["runs"]) if n_ != case["target"]})
+    tgt = case["runs"][case["target"]]
+    rec_i = tgt["history"][i][1] if i < len(tgt["history"]) else None
+    got = {"EXC": "an exception out of handle_request", "N": "silence"}.get(real_tokens[i], real_tokens[i])
+    key = f"replay:selected-by-properties:differs-from-recording:{what}:other-runs[{','.join(others) or 'none'}]"
+    ctx.disagree(key, f"selected by {'ECU name ' + case['selector'][0] + ' and ' if case['selector'][0] else ''}properties {json.dumps(want)}: replayed reply {i} of run {case['target'] + 1} "
+                 f"(the only run whose pre-properties match) is {got} but {'silence' if rec_i is None else rec_i} was recorded; the database also holds "
+                 f"{len(case['runs']) - 1} other run(s) [{', '.join(others)} the selector] - client and server agree on the state along the history",
+                 case, impl=real_tokens[: i + 1], model=recorded_tokens[: i + 1], spec_violated=True, site="DBHandler.complete_scan_run / insert_scan_run_properties_pre -> DBUDSServer.respond_after_default (selector)")
+
+
 def _scenarios(ctx, td):
     """databases with several recordings of one ECU, refused replies, cancelled calls, OEM state keys, pauses, a table of state objects
     (harness/lib/c12scen.py) - replayed through the real server with state and cursor read after every request, and through `serve`"""
@@ -453,7 +566,7 @@ def _scenarios(ctx, td):
 
     rng = ctx.rng
     n_sc = ctx.pick(105, 560)
-    kinds = ["identical-runs", "same-requests", "other-requests", "refused-replies", "cancelled-calls", "oem-state", "pauses", "restarted-scan"]
+    kinds = ["identical-runs", "same-requests", "other-requests", "refused-replies", "cancelled-calls", "oem-state", "pauses", "restarted-scan", "property-sets"]
     jobs = []   # one per replay: dict(scenario, line, real, spec=(hist, recorded tokens)|None, runs_in_db, where)
     replies_seen = set()
 
@@ -504,8 +617,66 @@ def _scenarios(ctx, td):
             if rng.random() < 0.5:  # a run of another ECU in between: ids of one ECU's recordings are not consecutive
                 rec(f"fake://other{len(recs)}", "OTHER", table_ecu(0, 7), table_plan(rng.randint(3, 8), 0), vin="VINX")
 
-        replays = []   # (run record for the spec or None, [(gap, pdu)], xs, where)
-        if scenario in ("identical-runs", "same-requests"):
+        replays = []   # (run record for the spec or None, [(gap, pdu)], xs, where[, selector])
+        forced_sel, db_case = None, None
+        if scenario == "property-sets":
+            # 2-4 runs of ECUs of one family (same services, other data), their property columns written only by the real DBHandler calls:
+            # insert_scan_run, insert_scan_run_properties_pre (or not: the write failed / was skipped), complete_scan_run (or not)
+            full = {"vin": "VIN0", "hw": 7, "sw": "2.0"}
+            want = rng.choice([{"sw": "2.0"}, {"vin": "VIN0"}, {"vin": "VIN0", "hw": 7}, {"hw": 7, "sw": "2.0"}, dict(full)])
+            forced_sel = (rng.choice([None, None, "ECU0"]), want)
+            k = rng.choice([2, 3, 4])
+            t = rng.randrange(k)
+            plan = table_plan(n, boot)
+
+            def differing():
+                d, must = dict(full), rng.choice(sorted(want))
+                for key in full:
+                    if key == must or rng.random() < 0.3:
+                        d[key] = {"vin": f"VIN{rng.randint(1, 3)}", "hw": rng.choice([6, 8]), "sw": rng.choice(["1.0", "2.1", None])}[key]
+                return d
+
+            described = []
+            for j in range(k):
+                if j == t:
+                    url, name, ecufn, steps = "fake://ecu0", "ECU0", table_ecu(boot, 0), plan
+                    pre, post = dict(full), rng.choice([dict(full), {**full, "sw": "2.1"}, sc.NOT_CALLED])
+                else:
+                    name = rng.choice(["ECU0", "OTHER"])
+                    url = "fake://ecu0" if name == "ECU0" else "fake://other"
+                    ecufn = sc.VariantECU(table_ecu(boot, 16 * (j + 1)), j + 1)
+                    steps = plan if rng.random() < 0.7 else table_plan(rng.randint(4, n), boot)
+                    shape = rng.choice(["no-pre:post-matches", "no-pre:post-matches", "no-pre:post-differs", "no-pre:not-completed",
+                                        "pre-differs:post-matches", "pre-differs:post-differs"])
+                    pre = sc.NOT_CALLED if shape.startswith("no-pre") else differing()
+                    post = dict(full) if shape.endswith("post-matches") else (sc.NOT_CALLED if shape.endswith("not-completed") else differing())
+                    ctx.kind(f"other-run:{shape}")
+                r, _ = vrun(sc.record_run(dbp, url, ecufn, steps, pre=pre, post=post))
+                named.append((r["run"], url, name, None))
+                recs.append(r)
+                described.append({"url": url, "name": name, "pre": None if pre is sc.NOT_CALLED else pre, "post": None if post is sc.NOT_CALLED else post,
+                                  "history": [[hx(p) if p else "", None if a is None else hx(a)] for p, a, _ in r["calls"]]})
+            # the columns the real calls left against RunCols.after
+            cols = sc.run_columns(dbp)
+            sel_txt = f"-/{sc.kvs(want)}"
+            def call_txt(which, d):   # ECUProperties.to_json sorts the keys
+                return [] if d is None else [f"{which}:{sc.kvs(dict(sorted(d.items())))}"]
+
+            calls_txt = [";".join(call_txt("pre", d["pre"]) + call_txt("post", d["post"])) or "-" for d in described]
+            for r, d, c_txt, out in zip(recs, described, calls_txt, ctx.lean([f"runcols {sel_txt} {c}" for c in calls_txt])):
+                got = "/".join(cols[r["run"]])
+                ctx.ev()
+                if out.split(" ")[0] != got:
+                    ctx.disagree(f"replay:scan-run-columns:pre-{'written' if d['pre'] is not None else 'not-written'}:{'completed' if d['post'] is not None else 'not-completed'}",
+                                 f"properties_pre/properties_post of run {r['run']} after the DBHandler calls [{c_txt}] are {got}, the model says {out.split(' ')[0]} (~: NULL)",
+                                 {"scenario": scenario, "calls": c_txt, "pre": d["pre"], "post": d["post"]}, impl=got, model=out.split(" ")[0], spec_violated=False,
+                                 site="DBHandler.insert_scan_run_properties_pre / complete_scan_run")
+            db_case = {"runs": described, "selector": [forced_sel[0], want], "target": t}
+            reqs = [(0, p) for p, _, _ in recs[t]["calls"]]
+            replays.append((recs[t], reqs, None, f"run {t + 1} of {k}, the only one whose pre-properties match"))
+            replays.append((None, reqs, None, "selected by an absent property: also the runs without pre-properties", (None, {rng.choice(["sw", "absent"]): None})))
+            replays.append((None, reqs, None, "selected by the empty property set", (forced_sel[0], {})))
+        elif scenario in ("identical-runs", "same-requests"):
             k = rng.choice([2, 2, 3])
             plan = table_plan(n, boot, good_keys=scenario == "identical-runs")
             for j in range(k):
@@ -583,8 +754,11 @@ def _scenarios(ctx, td):
             for _, a, _ in r["calls"]:
                 if a is not None:
                     replies_seen.add(hx(a))
-        sel_name, sel_props = rng.choice([("ECU0", None), (None, {"vin": "VIN0"}), ("ECU0", {"vin": "VIN0", "hw": 7}), ("ECU0", {"absent": None})])
-        for spec_run, reqs, xs, where in replays:
+        sel0 = rng.choice([("ECU0", None), (None, {"vin": "VIN0"}), ("ECU0", {"vin": "VIN0", "hw": 7}), ("ECU0", {"absent": None})])
+        if forced_sel is not None:
+            sel0 = forced_sel
+        for spec_run, reqs, xs, where, *own_sel in replays:
+            sel_name, sel_props = own_sel[0] if own_sel else sel0
             real, _ = vrun(sc.replay_trace(dbp, sel_name, sel_props, reqs, xs))
             spec = None
             if spec_run is not None:
@@ -592,7 +766,7 @@ def _scenarios(ctx, td):
                 hist = [(p, a) for p, a, _ in spec_run["calls"]]
                 spec = (hist, ["N" if a is None else hx(a) for _, a in hist], n_pass)
             jobs.append({"scenario": scenario, "line": sc.serve_line(sel_name, sel_props, xs, runs_txt, rows_txt, reqs), "real": real, "spec": spec,
-                         "runs_in_db": len(recs), "where": where})
+                         "runs_in_db": len(recs), "where": where, "db_case": db_case if spec is not None else None})
             ctx.ev()
             ctx.kind(f"scenario:{scenario}")
             ctx.nontrivial((scenario, rows_txt, tuple(reqs), str(xs)))
@@ -633,6 +807,9 @@ def _judge_scenarios(ctx, jobs, replies_seen):
             # the presupposition holds; further passes count when the recording ends in the default state (a scan that is started again)
             hist, recorded, n_pass = j["spec"]
             n_spec += 1
+            if real_r[: len(recorded) * n_pass] != recorded * n_pass and j.get("db_case"):
+                _report_spec_db(ctx, j["db_case"], j["scenario"], j["where"], real_r, recorded)
+                continue
             if real_r[: len(recorded) * n_pass] != recorded * n_pass:
                 _report_spec(ctx, hist, j["where"], j["scenario"], j["runs_in_db"], real_r, recorded * n_pass, unparsable, n_pass)
                 continue
@@ -661,7 +838,8 @@ def run(ctx):
                 "boot polling where the same request is first unanswered and later answered); the state logged per row is compared with the "
                 "model's client state-tracking rule; distinct = distinct (rows, request sequence); non-trivial = history contains a state change; "
                 "scenario databases (harness/lib/c12scen.py): one case = (database with 2-3 recordings of one ECU / refused replies / cancelled calls / OEM state keys / pauses / a short scan sent several times, "
-                "selector, request sequence, server-side state keys), compared reply~state@cursor per request")
+                "selector, request sequence, server-side state keys), compared reply~state@cursor per request; `property-sets`: 2-4 runs x (pre-properties written / not) x (completed with matching / differing post-properties / not completed), "
+                "recorded through the real DBHandler calls, selected by 1-3 property values (+ ECU name), by an absent property and by the empty set")
     n_db = ctx.pick(70, 400)
     lines_replay, lines_agree, lines_db, meta = [], [], [], []
     with tempfile.TemporaryDirectory(prefix="verif-c12-") as td:
@@ -785,6 +963,19 @@ def replay(ctx, payload):
     import gallia.command  # noqa: F401
     patch_aiosqlite()
     case = payload.get("case") or {}
+    if "runs" in case and "target" in case:
+        recorded, real, ok, cols = _rerecord_db(ctx, case)
+        for n_, (d, c) in enumerate(zip(case["runs"], cols)):
+            print(f"run {n_ + 1}{' (selected)' if n_ == case['target'] else ''}: {d['url']} ECU {d['name']}; insert_scan_run_properties_pre: {json.dumps(d['pre']) if d['pre'] is not None else 'not called'}; "
+                  f"complete_scan_run: {json.dumps(d['post']) if d['post'] is not None else 'not called'}")
+            print("   exchanges:", " ".join(f"{p}->{r}" for p, r in d["history"]))
+        print("selector : ecu =", case["selector"][0], " properties =", json.dumps(case["selector"][1]))
+        print("recorded :", " ".join(recorded))
+        print("replayed :", " ".join(real))
+        print("presupposition (client and server agree on the state along the selected run's history):", ok)
+        differs = real[: len(recorded)] != recorded
+        print("replay differs from the recording" if differs else "replay equals the recording")
+        return int(differs and ok)
     if "history" not in case:
         print(json.dumps(payload, indent=1)[:6000])
         print("this replay file names a correspondence that no longer checks; it carries no single history to re-run")
@@ -805,13 +996,15 @@ MANIFEST = {
     "level_text": ("Lean 4 theorems over an executable model of the whole replay path. Row level (`replayStep`): `replay_faithful` / `replay_faithful_db` - a recorded history on which client- and "
                    "server-side state tracking agree (the property's presupposition, decidable) is replayed exactly, whatever other ECUs / property sets / later rows the database holds; `replay_cursor_spec` - the "
                    "cursor rule in general (smallest matching id above the cursor, else smallest matching id); `replay_earliest_recording`, `replay_with_earlier_runs`, `replay_faithful_repeated_runs` - several "
-                   "recordings of the same ECU: the earliest is served first, m passes go round robin through k recordings, identical recordings replay exactly; `replay_again`; `replay_skips_unsent_calls` - rows of calls "
+                   "recordings of the same ECU: the earliest is served first, m passes go round robin through k recordings, identical recordings replay exactly; `replay_again`; `run_without_pre_properties_never_selected` / `complete_scan_run_keeps_selection` - only `insert_scan_run_properties_pre` decides "
+                   "whether a property value selects a run, a run completed without pre-properties stays invisible whatever its post-properties are; `replay_skips_unsent_calls` - rows of calls "
                    "that were never transmitted. Recording side: `record_is_c11_rows` / `record_is_c11_calls` - the rows C11's recorder model leaves under every schedule / fault / cancellation are `recordDb`. "
                    "Server level (`serveStep` = handle_request -> respond -> respond_after_default -> update_state over JSON state objects, with request and reply parsed and re-serialised): `serve_is_replay` - it is the "
                    "row-level model, given C01's and C02's round trips as hypotheses (discharged in `codec_hypotheses_hold`); `update_state_class_is_classify` - the state-tracking classes are read off C02's decoder; "
                    "`state_match_keywise`; `unparsable_recorded_reply`; `served_bytes_are_recorded`; `server_tables_agree` - DBUDSServer.Behavior, the rule chain, the query tails, the cursor start, the inactivity limit and "
                    "ECUState's keys regenerated from the working tree. Tie: recording with the real ECU (+ an OEM-like subclass) + DBHandler against RandomUDSServer, a state-aware table ECU and reply-mutating / "
-                   "suppress-ignoring variants into real sqlite files - 1..3 ECUs per file, 2-3 recordings of one ECU, refused replies, calls cancelled in flight or while waiting for the mutex - and replaying through the real "
+                   "suppress-ignoring variants into real sqlite files - 1..3 ECUs per file, 2-3 recordings of one ECU, refused replies, calls cancelled in flight or while waiting for the mutex, 2-4 runs whose property columns are written by the real DBHandler calls "
+                   "(pre-properties written or not, completed or not, post-properties matching the selector or not) - and replaying through the real "
                    "DBUDSServer / UDSServerTransport.handle_request with state and cursor read after every request: model = code on every replay, code = recording whenever the presupposition holds (also on further "
                    "passes of a recording that ends in the default state)."),
     "level_note": ("Trusted: Lean kernel, sqlite/aiosqlite, the harness. C01 / C02 round trips enter as explicit hypotheses discharged from those properties' lemmas; the recorder is C11's model. The inactivity reset and the wrap-around are "
